@@ -37,6 +37,17 @@ def run(repo: Repo, tier: str, res: CheckResult, seed: int = 0) -> None:
     layout_objects_compare_all_fields(repo, res)
     # hidden memos in the layout stage and the generators (shared rule family of C11): a sieve / crown cached under a key
     # that compares the user's default by == serves `0` with the sieve of `False`
+    from ..values import Resolver as _Resolver
+    from . import c11 as _c11
+    _sub = CheckResult("C11")
+    _c11.cached_call_sites(repo, _Resolver(repo), _sub)
+    res.evaluated("layout:model-codec-memo-keys", True)
+    for _f in _sub.findings:
+        if _f.rule == "KEY.always-equal" and "/morphing/model/" in _f.file:
+            res.add(Finding("C03", "LAYOUT.codec-memo-ignores-layout", _f.file, _f.qualname, _f.construct,
+                            "the generated model codec is memoised under a key that ignores the name layout (or another input of the "
+                            "generator): a model used under two name mappings in one retort is loaded / dumped with the keys of whichever "
+                            "location was compiled first. " + _f.message[:160], _f.line))
     from .. import memo
     memo.check(repo, res, "C03", only=("/morphing/name_layout/", "/morphing/model/", "/provider/overlay_schema"), floors=False)
     res.assumptions = list(ASSUMPTIONS)
